@@ -96,7 +96,9 @@ fn goal(w: &World, base_appends: u8) -> Result<(), &'static str> {
     // every entry appended since the start state, and every entry the leader holds as committed (it was
     // appended at a leader and acknowledged, possibly on the majority side of the partition), is committed
     // as the same entry on every node
-    for le in w.nodes[l].storage.entries.iter().filter(|e| e.committed || e.data > base_appends) {
+    // (an entry in the settled leader's log is never removed again, so it has to become committed: this
+    // includes an entry of an older term that was replicated but not yet committed at a leader change)
+    for le in w.nodes[l].storage.entries.iter() {
         for i in 0..N {
             let ok = w.nodes[i].storage.entries.iter().any(|e| e.data == le.data && e.index == le.index && e.term == le.term && e.committed);
             if !ok {
